@@ -87,26 +87,9 @@ def leaf_class(flat):
     return "builtin-leaves"
 
 
-def run(ctx):
-    size = "Full" if ctx.tier == "thorough" else "Quick"
-    t0 = time.time()
-    gen = {}
-    for part in ("trees", "pairs", "meta"):
-        cfg = "mc/Dtype_%s_%s.cfg" % (part, size if part != "meta" else "Quick")
-        r = ctx.tlc("mc/MC_Dtype.tla", cfg, workers=min(WORKERS, 4), coverage=(part == "trees"), deadlock=False, timeout=3000)
-        ctx.tlc_must_pass(r, "Dtype %s (definitions' sanity theorems + round-trip property + generation)" % part)
-        if part == "trees":
-            ctx.require_coverage(r, ["Step"])
-        gen[part] = [b[0] for b in b_json(r)]
-        if not gen[part]:
-            raise Broken("no values generated by %s" % cfg)
-    t1 = time.time()
-    trees = sorted(gen["trees"], key=lambda s: json.dumps(s["tree"], sort_keys=True))
-    metas = sorted(gen["meta"], key=lambda s: json.dumps(s["meta"], sort_keys=True))
-    rel = {}
-    for p in gen["pairs"]:
-        rel[(shape_key(p["fa"], p["ba"]), shape_key(p["fb"], p["bb"]))] = p["can"]
-
+def evaluate(ctx, trees, metas, rel):
+    """build, round-trip and observe the given trees / metadata lists with the real library and compare with
+    the spec's records; returns (trees checked, metadata lists checked, comparisons, distinct shapes, crashes)"""
     exe, lib = ctx.build_harness("dtype_replay", ["dtype_replay.cpp"], variant=os.environ.get("VERIF_VARIANT", "asan"))
     env = ctx.occa_env(lib)
     cases = [{"kind": "trees", "pool": [t["tree"] for t in trees]},
@@ -119,7 +102,6 @@ def run(ctx):
             item = what["pool"][c["step"] % len(what["pool"])]
         ctx.mismatch("crash:%s:%s" % (what["kind"], c["crash"]), "replayer crashed on %s: %s" % (item, c.get("log", "")[-1500:]),
                      [{"kind": what["kind"], "item": item}])
-    t2 = time.time()
     n = len(trees)
     checked = 0
     if 0 in outs:
@@ -129,7 +111,7 @@ def run(ctx):
             tr, ob = t["tree"], o["trees"][i]
             isbyte = tr["k"] == "builtin" and tr["n"] == "byte"
             keys.append(shape_key(t["orig"]["flat"], isbyte))
-            rep = [{"kind": "trees", "pool": [tr]}]
+            rep = [{"kind": "trees", "pool": [tr], "spec": {"trees": [t]}}]
             if "err" in ob:
                 ctx.mismatch("exception:%s" % tree_class(tr), "exception for %s: %s" % (tr, ob["err"][:300]), rep)
                 continue
@@ -177,13 +159,15 @@ def run(ctx):
                             sig = "roundtrip:registered-custom-identity"
                         ctx.mismatch(sig,
                                      "canBeCastedTo(%s, %s) [%s] = %s, spec %s" % (a, b, variant, row[j], want),
-                                     [{"kind": "trees", "pool": [a, b]}])
+                                     [{"kind": "trees", "pool": [a, b],
+                                       "spec": {"trees": [trees[i], trees[j]],
+                                                "rel": [[keys[i], keys[j], rel[(keys[i], keys[j])]], [keys[j], keys[i], rel[(keys[j], keys[i])]]]}}])
                     checked += 1
     nmeta = 0
     if 1 in outs:
         for i, m in enumerate(metas):
             ob = outs[1]["metas"][i]
-            rep = [{"kind": "meta", "metas": [m["meta"]]}]
+            rep = [{"kind": "meta", "metas": [m["meta"]], "spec": {"metas": [m]}}]
             if "err" in ob:
                 ctx.mismatch("exception:meta", "exception for %s: %s" % (m["meta"], ob["err"][:300]), rep)
                 continue
@@ -205,12 +189,61 @@ def run(ctx):
                         ctx.mismatch(sig,
                                      "%s arg %d dtype reports %s, spec %s" % (m["meta"], k, ga["dtype"], ea["dtype"]), rep)
             nmeta += 1
+    return n, nmeta, checked, (len(set(keys)) if 0 in outs else 0), len(crashes)
+
+
+def finish_replay(ctx):
+    """--replay: report what was reproduced; the evidence file is not touched"""
+    import shutil
+    for (sig, what, path) in ctx.mismatches:
+        print("VIOLATION property=%s replay=%s sig=%s :: %s" % (ctx.pid, ctx.replay, sig, " | ".join(what.splitlines())[:900]))
+    if not ctx.mismatches:
+        print("REPLAY-OK property=%s replay=%s: the implementation now conforms on this artefact" % (ctx.pid, ctx.replay))
+    shutil.rmtree(ctx.tmp, ignore_errors=True)
+    return 1 if ctx.mismatches else 0
+
+
+def replay(ctx):
+    recs = [json.loads(l) for l in open(ctx.replay) if l.strip()]
+    if not all("spec" in r for r in recs):
+        raise Broken("the artefact carries no predictions (written by an older version of the check)")
+    for r in recs:
+        sp = r["spec"]
+        rel = {(a, b): w for a, b, w in sp.get("rel", [])}
+        evaluate(ctx, sp.get("trees", []), sp.get("metas", []), rel)
+    return finish_replay(ctx)
+
+
+def run(ctx):
+    if ctx.replay:
+        return replay(ctx)
+    size = "Full" if ctx.tier == "thorough" else "Quick"
+    t0 = time.time()
+    gen = {}
+    for part in ("trees", "pairs", "meta"):
+        cfg = "mc/Dtype_%s_%s.cfg" % (part, size if part != "meta" else "Quick")
+        r = ctx.tlc("mc/MC_Dtype.tla", cfg, workers=min(WORKERS, 4), coverage=(part == "trees"), deadlock=False, timeout=3000)
+        ctx.tlc_must_pass(r, "Dtype %s (definitions' sanity theorems + round-trip property + generation)" % part)
+        if part == "trees":
+            ctx.require_coverage(r, ["Step"])
+        gen[part] = [b[0] for b in b_json(r)]
+        if not gen[part]:
+            raise Broken("no values generated by %s" % cfg)
+    t1 = time.time()
+    trees = sorted(gen["trees"], key=lambda s: json.dumps(s["tree"], sort_keys=True))
+    metas = sorted(gen["meta"], key=lambda s: json.dumps(s["meta"], sort_keys=True))
+    rel = {}
+    for p in gen["pairs"]:
+        rel[(shape_key(p["fa"], p["ba"]), shape_key(p["fb"], p["bb"]))] = p["can"]
+
+    n, nmeta, checked, nshapes, ncrashes = evaluate(ctx, trees, metas, rel)
+    t2 = time.time()
     t3 = time.time()
     ctx.notes.append("phase wall seconds: TLC %.0f, replay %.0f, compare %.0f" % (t1 - t0, t2 - t1, t3 - t2))
     ctx.traces_validated = n + nmeta
     ctx.samples = [{"tree": trees[0]["tree"]}, {"tree": trees[n // 2]["tree"]}, {"meta": metas[len(metas) // 2]["meta"]}]
-    ctx.cov.update({"dtype_trees": n, "cast_pairs_checked_x4": n * n, "distinct_shapes": len(set(keys)) if 0 in outs else 0,
-                    "metadata_lists": nmeta, "comparisons": checked, "crashes": len(crashes)})
+    ctx.cov.update({"dtype_trees": n, "cast_pairs_checked_x4": n * n, "distinct_shapes": nshapes,
+                    "metadata_lists": nmeta, "comparisons": checked, "crashes": ncrashes})
     ctx.assumptions += [
         "dtype trees of depth <= 2, width <= 2 over the leaves byte/int/float/float2/custom/registered custom/enum (thorough: + double, int8, int4, long, a second custom); tuples of size 2, 3",
         "equivalent value = what a plain copy is: same kind, names, field order, element types, bytes; same canBeCastedTo answers as a copy towards every other pool member (original or read back)",
